@@ -587,8 +587,40 @@ pub fn run_c14(run: &Run) {
                 items.push((format!("conjunction of all {} statements{}", n, if bridged { ", bridged" } else { "" }), l.text(None, ("", "", "")), vec![U; n], bridged, n >= 65));
             }
         }
+        // ladders with EXACTLY 63 ... 67 / 127 ... 129 / 255 ... 257 statements: the last statement is a fact, statement i follows
+        // from statements i+1 and i+2 (shallow diagrams - two or three levels - but one round of propagation per
+        // statement, each of which restricts by the highest positions first): the highest variable index is n - 1
+        for n in [63usize, 64, 65, 66, 67, 127, 128, 129, 255, 256, 257] {
+            let labels: Vec<String> = (0..n).map(|i| format!("l{:03}", i)).collect();
+            let mut conds: Vec<Fm> = vec![];
+            let mut g: Vec<u8> = vec![U; n];
+            g[n - 1] = T;
+            g[n - 2] = F;
+            for i in (0..n - 2).rev() {
+                // alternate: s_i = s_{i+1} | !s_{i+2}   /   s_i = s_{i+1} & s_{i+2}   /  s_i = s_{i+1} xor s_{i+2}
+                let (a, b) = (g[i + 1] == T, g[i + 2] == T);
+                g[i] = if match i % 3 { 0 => a || !b, 1 => a && b, _ => a != b } { T } else { F };
+            }
+            for i in 0..n {
+                conds.push(if i == n - 1 {
+                    Fm::Top
+                } else if i == n - 2 {
+                    Fm::not(Fm::Atom(n - 1))
+                } else {
+                    match i % 3 {
+                        0 => Fm::bin(1, Fm::Atom(i + 1), Fm::not(Fm::Atom(i + 2))),
+                        1 => Fm::bin(0, Fm::Atom(i + 1), Fm::Atom(i + 2)),
+                        _ => Fm::bin(4, Fm::Atom(i + 1), Fm::Atom(i + 2)),
+                    }
+                });
+            }
+            let l = crate::large::LargeAdf { labels: labels.clone(), written: labels, conds, shape: "ladder" };
+            for bridged in [false, true] {
+                items.push((format!("ladder of exactly {} statements{}", n, if bridged { ", bridged" } else { "" }), l.text(None, ("", "", "")), g.clone(), bridged, false));
+            }
+        }
         let res = run.par_family(
-            &format!("objects at scale: {} (sparse 70-270 statements, ring(7), a 2^17-node bridged diagram, diagrams of 40-70 levels), both round trips", items.len()),
+            &format!("objects at scale: {} (sparse 70-270 statements, ring(7), a 2^17-node bridged diagram, diagrams of 40-70 levels, ladders of exactly 63-67 / 127-129 / 255-257 statements), both round trips", items.len()),
             items.len() as u64,
             || 0u64,
             |st, k| {
